@@ -183,7 +183,8 @@ def stopsIn : List Win → List Nat → Bool
   | _, _ => true
 
 theorem zip_all_stopsIn (ws : List Win) (shape : List Nat) :
-    (((ws.map fun w => w.2).zip shape).all fun se => decide (se.1 ≤ (se.2 : Int))) = stopsIn ws shape := by
+    (((ws.map fun w => w.2).zip shape).all fun se => Gen.stopInData se.1 (se.2 : Int)) = stopsIn ws shape := by
+  simp only [gen_stopInData]
   induction ws generalizing shape with
   | nil => cases shape <;> simp [stopsIn]
   | cons w ws ih =>
